@@ -187,6 +187,23 @@ class C01(ProgProp):
                     res.fail("C01|pypy%s|field|%s" % (case["v"], cn.field_of(d[0]) or "const"),
                              "payload of CPython %s under PyPy's magic %d: tree differs at %s: CPython %s, xdis %s" % (
                                  case["v"], PYPY_MAGIC[case["v"]], d[0], d[1], d[2]))
+        if not res.reject and not res.failures and case.get("k") in ("prog", "stdlib") and isinstance(case.get("down"), int) \
+                and case["down"] % 3 == 0:
+            # the same file unmarshalled by xdis running on another Python (3.8 ... 3.13 are supported hosts)
+            from vf.pool import HOSTS
+            h = HOSTS[(case["down"] // 3) % len(HOSTS)]
+            ref = self.reference(case, ctx)
+            if len(ref["payload"]) < 120000:
+                r = ctx.pool.host(h).call_raw("x_dump", data=ref["header"] + ref["payload"], route="portable", dis=False)
+                res.classes.append("xdis-host:" + h)
+                if not r["ok"]:
+                    res.fail("C01|%s|on-host|raised|%s" % (case["v"], r["err"].split(":")[0]), "xdis on Python %s cannot load the %s file: %s" % (
+                        h, case["v"], r["err"][:200]))
+                else:
+                    d = cn.diff(ref["tree"], r["r"]["tree"])
+                    if d:
+                        res.fail("C01|%s|on-host|field|%s" % (case["v"], cn.field_of(d[0]) or "const"),
+                                 "xdis on Python %s: tree differs at %s: CPython %s, xdis %s" % (h, d[0], d[1], d[2]))
         if case.get("v") in DOWN and not res.reject and not res.failures and case.get("k") in ("prog", "stdlib") \
                 and isinstance(case.get("down"), int):
             self.judge_down(case, ctx, res)
